@@ -193,6 +193,8 @@ def c_output(obs):
 def enc(prog, obs):
     if obs.get("crashed") or obs.get("failed") is None:
         return None
+    if any(e[0] == "excluded" for e in obs["log"]):
+        return None         # elements excluded by a hook calling .skip(): not in the Coq model (oracle only, props/c09.py)
     return c_program(prog), c_output(obs)
 
 
